@@ -8,6 +8,8 @@
 EXTENDS GraphOps, TLC
 
 Q == 64
+\* NodeSpacing in 1/Q units (c.ns / c.nsd coordinate units, nsd a power of two)
+NSq(c) == (Q * c.ns) \div c.nsd
 SizeAwareP4 == {"sink", "valign", "pack", "nspos"}
 
 \* ------------------------------------------------------------------ accessors
@@ -88,7 +90,7 @@ Contract4(c, a, s) ==
               NodeOf(s, s.layers[l][j])[6] = SumSeq([m \in 1..(l - 1) |-> s.lh[m] + Q * c.ls]), "P4_YStacksLayers")
     \cup If((c.p4 \in SizeAwareP4 /\ s.exact = 1) => \A l \in DOMAIN s.layers : \A j \in 1..(Len(s.layers[l]) - 1) :
               LET u == NodeOf(s, s.layers[l][j]) w == NodeOf(s, s.layers[l][j + 1])
-              IN u[5] + u[7] + Q * c.ns <= w[5], "P4_NeighboursSeparated")
+              IN u[5] + u[7] + NSq(c) <= w[5], "P4_NeighboursSeparated")
 
 \* P5: long edges merged back into their head edge; arrow flag copied from the reversed flag; point counts per style
 Contract5(c, a, s) ==
